@@ -28,7 +28,7 @@ func (propC16) Rule() string {
 }
 func (propC16) Runs(tier string) int {
 	if tier == "thorough" {
-		return 2000000
+		return 1000000
 	}
 	return 60000
 }
